@@ -659,11 +659,20 @@ func (w *world) run(cfg config, feat bool, o *opReq, t *table, subs []submission
 	}
 	return sexp.T("case",
 		sexp.T("cfg", sexp.Sym("c"+cfg.String()), sexp.Bool(feat)),
+		sexp.T("inits", initNodes(initsFor(cfg, feat))...),
 		sexp.T("op", sexp.Str(o.Query), optVars(o.Vars), sexp.Str(o.OpName), sexp.Bool(o.Sub)),
 		sexp.T("classes", cl...),
 		sexp.T("json", t.sexp()),
 		sexp.T("nums", numsOf(subs)...),
 		sexp.T("subs", items...))
+}
+
+func initNodes(plans []string) []sexp.Node {
+	var out []sexp.Node
+	for _, p := range plans {
+		out = append(out, sexp.Str(p))
+	}
+	return out
 }
 
 func allConfigs() []config {
